@@ -24,6 +24,22 @@ def main():
     if "C12_Intersect" not in names or "C12_AcceptSafe" not in names:
         print("SELFTEST FAILED: corrupted quorum row accepted", names, r.out[-500:])
         return 1
+    # 3. a coordination history whose logged result contradicts the contract must be rejected by DcsTrace
+    blank = {"client": "p", "spell": "", "val": "1", "got": "", "kids": [], "how": "",
+             "present": {k: False for k in ("a", "a/b", "c", "d", "d/e", "d/e/f")},
+             "eph": {k: False for k in ("a", "a/b", "c", "d", "d/e", "d/e/f")}}
+    hist = {"id": "selftest", "events": [dict(blank, op="Create", key="a", res="ok"),
+                                          dict(blank, op="Create", key="a", res="ok")]}   # second create must say "exists"
+    r = vlib.tlc(ctx, "DcsTrace", files={"rows.ndjson": json.dumps(hist) + "\n"}, cont=True, workers=1)
+    if not any("C15_Contract" in v["name"] for v in r.violations):
+        print("SELFTEST FAILED: corrupted coordination history accepted", r.out[-500:])
+        return 1
+    # 4. a lock history in which a client is told "held" while another owns the node must be rejected by LockTrace
+    ev = {"t": 0, "op": "Acquire", "client": "p", "res": True, "wire": False, "owner": "q", "preowner": "", "nested": False, "arg": ""}
+    r = vlib.tlc(ctx, "LockTrace", files={"rows.ndjson": json.dumps({"id": "selftest", "events": [ev]}) + "\n"}, cont=True, workers=1)
+    if not any("C03_Layer" in v["name"] for v in r.violations):
+        print("SELFTEST FAILED: corrupted lock history accepted", r.out[-500:])
+        return 1
     print("selftest ok")
     return 0
 
